@@ -77,6 +77,11 @@ def run(ctx):
     for role, opts in (('server', ['-n']), ('server', ['-j']), ('server', ['-n', '-v']), ('client', ['-n', '-b']), ('client', ['-jj'])):
         cases.append({'kind': 'all-db', 'role': role, 'banner': b'SSH-2.0-OpenSSH_8.9p1', 'opts': opts, 'port': None,
                       'lists': {'kex': list(allnames['kex']), 'key': list(allnames['key']), 'enc': list(allnames['enc']), 'mac': list(allnames['mac']), 'comp': [b'none', b'zlib@openssh.com']}})
+    # the banner as sent: every printable ASCII character somewhere in the software token or the comments (real banners use '~', '+', '(' ...)
+    punct = bytes(c for c in range(0x21, 0x7f) if not chr(c).isalnum() and chr(c) not in '-')
+    for i, b in enumerate([b'SSH-2.0-OpenSSH_8.4p1 Debian-5~bpo10+1', b'SSH-2.0-Soft_1.0 ' + punct, b'SSH-2.0-x' + punct.replace(b' ', b'') + b'_2.1 z~', b'SSH-2.0-OpenSSH_for_Windows_9.5 {~}|']):
+        cases.append({'kind': 'banner-chars', 'role': 'client' if i == 1 else 'server', 'banner': b, 'opts': OPTS[i % len(OPTS)], 'port': None,
+                      'lists': {'kex': [b'curve25519-sha256'], 'key': [b'ssh-ed25519'], 'enc': [b'aes256-ctr'], 'mac': [b'hmac-sha2-256'], 'comp': [b'none']}})
     # probe-heavy archetypes: every follow-up phase (host-key probes over DH/ECDH and over GEX, GEX size probes) runs between parsing the
     # peer's KEXINIT and printing it; non-canonical list orders and duplicates make any in-place reordering by those phases visible
     for i, (kexs, comp) in enumerate([([b'curve25519-sha256', b'diffie-hellman-group-exchange-sha256'], [b'zlib@openssh.com', b'none']),
